@@ -110,6 +110,14 @@ def _build(cfg):
         raise AssertionError(cls)
     if cfg.get("set_phi") is not None:
         m.setPhaseOffset(cfg["set_phi"])
+    if cfg.get("reinit_from") and cls in ("PSK", "QAM"):
+        # an object of ANOTHER order of the same class, re-initialised
+        # through the public setConstellation with this configuration's
+        # constellation
+        other = f.QAM(cfg["reinit_from"]) if cls == "QAM" else \
+            f.PSK(cfg["reinit_from"])
+        other.setConstellation(np.array(m.symbols, copy=True))
+        return other
     return m
 
 
